@@ -3,7 +3,7 @@
    `replayable`, `tree`), Model/Writer.v (ReportWriter, `aggregate`), Model/StreamOk.v (the stream grammar), Model/Events.v. *)
 From Coq Require Import List NArith ZArith Bool.
 Import ListNotations.
-From LCC Require Import Base.Util Model.Report Model.Events Model.Writer Model.Replay Model.StreamOk Proofs.ReplayP.
+From LCC Require Import Base.Util Model.Report Model.Events Model.Writer Model.Replay Model.StreamOk Proofs.ReplayP Proofs.StreamP.
 
 (* For every report a ReportWriter can have produced (Replay.replayable: finished or not — results, steps, suites and the report
    itself may lack an end time, several steps of one result may be open at once), whatever time.time() returns during the replay
@@ -14,6 +14,22 @@ Theorem C18_identity : forall (now : Z) (th : tid) (r : report), replayable r = 
   exists es, replay_report_events now th r = (es, None) /\ aggregate es = Ok (tree r).
 Proof. exact replay_identity. Qed.
 Print Assumptions C18_identity.
+
+(* The replayed stream satisfies the grammar of DESIGN Appendix A.1 in replay mode (StreamOk.replay_mode: an End may be missing
+   and an open step may be abandoned, because the report may be the snapshot of a running session; empty steps may occur): session
+   start first, session end last when present, session setup before / teardown after every suite event, suite brackets enclosing
+   their setup, tests, sub-suites and teardown in this order, every ancestor open, no node started twice, nothing for a node
+   after its End, every log inside the step open for its thread and location with that step's description. *)
+Theorem C18_stream_ok : forall (now : Z) (th : tid) (r : report), replayable r = true ->
+  stream_ok replay_mode (fst (replay_report_events now th r)) = true.
+Proof. exact replay_stream_ok. Qed.
+Print Assumptions C18_stream_ok.
+
+(* ... and it is strictly sequential: additionally the events of each result (setup, teardown, test) form one contiguous block. *)
+Theorem C18_sequential : forall (now : Z) (th : tid) (r : report), replayable r = true ->
+  sequential_ok replay_mode (fst (replay_report_events now th r)) = true.
+Proof. exact replay_sequential. Qed.
+Print Assumptions C18_sequential.
 
 (* F10: the same statement is false of replay.py as it was before fixes/F10 (StepEndEvent fired unconditionally, its
    event_time=None replaced by time.time()): an in-progress test with an open step comes back with the step ended. *)
